@@ -769,11 +769,14 @@ void run_c12(Judge& j, uint64_t n) {
             if (mode == 2) sc.bcfg.silent_until = talk_until + (vt)rng.range(unit / 2, 4 * unit);
         }
         if (rng.chance(1, 4)) { Fault f; f.kind = Fault::reset_b2c; f.conn_ordinal = 0; f.at = rng.range(5, 40); sc.faults.push_back(f); }
+        // silence that begins in the middle of a packet: the bytes stop after the CONNACK somewhere inside later traffic
+        else if (rng.chance(1, 4)) { Fault f; f.kind = Fault::stall_b2c; f.conn_ordinal = (int)rng.below(2); f.at = rng.range(6, 60); sc.faults.push_back(f); }
         sc.end = eff ? talk_until + 8 * unit + 30 * SEC : 3600 * SEC;
         vu::set_case(sc.family + " index=" + std::to_string(i));
         auto ex = execute(sc);
         j.judge(sc, *ex);
         if (mode >= 1 && eff) j.res.count("silence_scenarios");
+        for (auto& f : ex->world->faults) if (f.kind == Fault::stall_b2c && f.fired && eff) j.res.count("midpacket_stalls_with_keepalive");
     }
 }
 
